@@ -163,7 +163,7 @@ fn main() {
     for server in [true, false] {
         sink.merge(grid_sweep(&run, &targets, 64, &|c, n| cat::hello_grid(server, false, thorough, c, n), &|m| cat::record(0x16, 0x0303, |w| { w.append(m); }), &extra));
     }
-    for style in [1u8, 3, 4, 6, 7, 8, 10, 11, 12, 13, 14, 15, 16, 17, 18, 19] {
+    for style in [1u8, 3, 4, 6, 7, 8, 10, 11, 12, 13, 14, 15, 16, 17, 18, 19, 20, 21] {
         use vcommon::en::with_fill_style as wfs;
         sink.merge(struct_sweep(&run, &targets, &wfs(style, || cat::tls_records(2, false)), 0, &sfx, 48, &extra));
     }
